@@ -15,7 +15,9 @@ import Hv.Misc.Hydrex
       * an empty key also makes the whole CatalogSaveMany of the core data fail (conversion error).
     Flags: `C27-value-update-skipped`, `C27-stale-keys-kept`, `C27-destroy-leaves-index`,
     `C27-index-inconsistent`, and for hostile keys `C27-empty-key-save-ignored`,
-    `C27-key-with-separator-not-indexed`. -/
+    `C27-key-with-separator-not-indexed`; for an index name or a domain that is empty or contains '/':
+    nothing is stored when Save / Destroy validate them (`C27-invalid-key-save-ignored`: the caller is not told),
+    otherwise a domain with '/' lands in the index swamps without core data (`C27-hostile-name-half-saved`). -/
 namespace Driver.C27
 open Hv.Hydrex
 
@@ -28,6 +30,8 @@ structure DSt where
   keys : List String          -- key tokens, numbered by position
   hostile : Bool              -- some key of this case is empty or contains '/'
   validates : Bool            -- fact: Save refuses calls with such a key up front
+  validatesN : Bool           -- fact: Save and Destroy refuse an index name / domain that is empty or contains '/'
+  hostileN : Bool             -- some index name or domain of this case is empty or contains '/'
 
 def idOf (l : List String) (t : String) : List String × Nat :=
   match l.idxOf? t with
@@ -93,7 +97,7 @@ def renderCore (keys : List String) (f : Key → Option Val) : String :=
 
 def step (d : DSt) (line : String) : DSt × String :=
   match line.splitOn " " with
-  | ["case", _] => ({ d with s := init, spec := fun _ _ _ => none, idxs := [], doms := [], keys := [], hostile := false }, line)
+  | ["case", _] => ({ d with s := init, spec := fun _ _ _ => none, idxs := [], doms := [], keys := [], hostile := false, hostileN := false }, line)
   | ["idle"] => (d, "ok")
   | ["save", it, dt, its] =>
     match parseItems its with
@@ -104,19 +108,28 @@ def step (d : DSt) (line : String) : DSt × String :=
       let (keys, kl) := l.foldl (fun (acc : List String × List (Key × Val)) (kv : String × Val) =>
         let (ks, id) := idOf acc.1 kv.1
         (ks, acc.2 ++ [(id, kv.2)])) (d.keys, [])
-      let hostile := d.hostile || l.any (fun kv => isHostileTok kv.1)
-      let f : Key → Option Val := fun k => kl.lookup k
-      -- with key validation in Save, a call that carries an invalid key changes nothing
       let invalid := l.any (fun kv => isHostileTok kv.1)
-      let s' := if invalid && d.validates then d.s
+      let nameBad := isHostileTok it || isHostileTok dt
+      let hostile := d.hostile || invalid || nameBad
+      let f : Key → Option Val := fun k => kl.lookup k
+      -- with validation in Save, a call that carries an invalid key / index name / domain changes nothing
+      let s' := if (invalid && d.validates) || (nameBad && d.validatesN) then d.s
+        else if nameBad then
+          -- not validated: every swamp name built from an invalid index name, and the core swamp name of an invalid domain,
+          -- is refused by the gateway; a domain with '/' still gets into the index swamps of the (clean) keys
+          (if isHostileTok it || dt == "x" || invalid then d.s
+           else { d.s with index := fun i' j d' => if i' = i ∧ d' = dm ∧ (f j).isSome then true else d.s.index i' j d' })
         else if hostile then stepX d.cfg keys d.s i dm (some f) else Hv.Hydrex.step d.cfg d.s (.save i dm f)
-      ({ d with s := s', idxs := idxs, doms := doms, keys := keys, hostile := hostile,
+      ({ d with s := s', idxs := idxs, doms := doms, keys := keys, hostile := hostile, hostileN := d.hostileN || nameBad,
                 spec := fun i' d' k => if i' = i ∧ d' = dm then f k else d.spec i' d' k }, "ok")
   | ["destroy", it, dt] =>
     let (idxs, i) := idOf d.idxs it
     let (doms, dm) := idOf d.doms dt
-    let s' := if d.hostile then stepX d.cfg d.keys d.s i dm none else Hv.Hydrex.step d.cfg d.s (.destroy i dm)
-    ({ d with s := s', idxs := idxs, doms := doms,
+    let nameBad := isHostileTok it || isHostileTok dt
+    -- nothing is stored under an invalid name, and every call with one fails (or is refused up front)
+    let s' := if nameBad then d.s
+      else if d.hostile then stepX d.cfg d.keys d.s i dm none else Hv.Hydrex.step d.cfg d.s (.destroy i dm)
+    ({ d with s := s', idxs := idxs, doms := doms, hostile := d.hostile || nameBad, hostileN := d.hostileN || nameBad,
               spec := fun i' d' k => if i' = i ∧ d' = dm then none else d.spec i' d' k }, "ok")
   | ["core", it, dt] =>
     let (idxs, i) := idOf d.idxs it
@@ -126,7 +139,8 @@ def step (d : DSt) (line : String) : DSt × String :=
     let want := ks.map (d.spec i dm)
     let fl :=
       if got == want then ""
-      else if d.hostile && d.validates then "\t#F:C27-invalid-key-save-ignored"
+      else if d.hostile && d.validates && (d.validatesN || !d.hostileN) then "\t#F:C27-invalid-key-save-ignored"
+      else if d.hostileN && !d.validatesN then "\t#F:C27-hostile-name-half-saved"
       else if d.hostile then (if d.keys.contains "x" then "\t#F:C27-empty-key-save-ignored" else "\t#F:C27-key-with-separator-not-indexed")
       else if got.map Option.isSome == want.map Option.isSome then "\t#F:C27-value-update-skipped"
       else "\t#F:C27-stale-keys-kept"
@@ -140,7 +154,8 @@ def step (d : DSt) (line : String) : DSt × String :=
     -- Spec: the domains whose last saved items contain exactly this key
     let want := ds.filter fun dm => (d.spec i dm k).isSome
     let fl := if got == want then "" else
-      (if (d.hostile || isHostileTok kt) && d.validates then "\t#F:C27-invalid-key-save-ignored"
+      (if (d.hostile || isHostileTok kt) && d.validates && (d.validatesN || !d.hostileN) then "\t#F:C27-invalid-key-save-ignored"
+       else if d.hostileN && !d.validatesN then "\t#F:C27-hostile-name-half-saved"
        else if d.hostile || isHostileTok kt then
          (if d.keys.contains "x" || kt == "x" then "\t#F:C27-empty-key-save-ignored" else "\t#F:C27-key-with-separator-not-indexed")
        else if d.cfg.destroyCleansIndex then "\t#F:C27-index-inconsistent" else "\t#F:C27-destroy-leaves-index")
@@ -152,7 +167,7 @@ def run (args : List String) : IO UInt32 := do
   let kv := parseArgs args
   let yes (k : String) : Bool := arg kv k == "yes"
   let cfg : Cfg := ⟨yes "updatesExisting", yes "saveRemovesStale", yes "destroyCleansIndex"⟩
-  lineLoop step ⟨cfg, init, fun _ _ _ => none, [], [], [], false, yes "validatesKeys"⟩
+  lineLoop step ⟨cfg, init, fun _ _ _ => none, [], [], [], false, yes "validatesKeys", yes "validatesNames", false⟩
   return 0
 
 end Driver.C27
